@@ -30,7 +30,11 @@ func TestC05(t *testing.T) {
 		pw := sim.NewWorld(cfg)
 		pw.Start()
 		sw := drawSwarm(t, len(cfg.Byz) > 0 || cfg.Outsiders > 0)
-		sw.sync = 0
+		if rapid.Bool().Draw(t, "prefix-without-syncs") { // half of the prefixes contain node syncs (members that enter a height by sync, not by their own commit)
+			sw.sync = 0
+		} else if sw.sync == 0 {
+			sw.sync = 1
+		}
 		for i := rapid.IntRange(0, o.MaxSteps).Draw(t, "steps"); i > 0 && pw.Viol == nil && !pw.AllDone(); i-- {
 			pw.Apply(drawAction(t, pw, sw, o))
 		}
@@ -65,6 +69,9 @@ func TestC05(t *testing.T) {
 			return
 		}
 		col.Class("judged")
+		if res.NoTimer > 0 {
+			col.Class("decider-without-armed-timer")
+		}
 		col.Class(fmt.Sprintf("firings=%d", minInt(res.Firings, 12)))
 		col.Class(fmt.Sprintf("view-spread=%d", minU(res.Vmax-res.Vmin, 6)))
 		col.MaxExtra("max_firings_observed", int64(res.Firings))
